@@ -23,6 +23,11 @@ func coreC08(tier string) []RunSpec {
 			out = append(out, RunSpec{Profile: "core:path:" + wwKinds[pi], Params: map[string]int{"path": pi, "legacy": legacy}})
 		}
 		out = append(out, RunSpec{Profile: "core:path:restore", Params: map[string]int{"path": 100, "legacy": legacy}})
+		// SIG_ALL P2PK token from an untrusted mint received with swap-to-trusted: the wallet first
+		// swaps at the untrusted mint and melts the fresh proofs there
+		for k := 0; k < 2; k++ {
+			out = append(out, RunSpec{Profile: "core:sigall-swap-to-trusted", Params: map[string]int{"sigallcross": 1, "legacy": legacy, "k": k}})
+		}
 	}
 	return out
 }
@@ -175,6 +180,9 @@ func runC08(rc *RunCtx) {
 		legacy = T.Pick("cfg.legacy", 3, 1)
 	}
 	nm := 1 + T.Choose("cfg.mints", 2)
+	if rc.P("sigallcross", 0) == 1 {
+		nm = 2
+	}
 	path, hasPath := rc.Spec.Params["path"]
 	if hasPath && (path == 7 || path == 2) {
 		nm = 2
@@ -193,6 +201,14 @@ func runC08(rc *RunCtx) {
 		ww.StepMint()
 	}
 	scanned := ww.ScanRequests(0)
+	if rc.P("sigallcross", 0) == 1 {
+		c17SigAllCrossMint(ww, uint64(16+16*rc.P("k", 0)))
+		ww.Settle()
+		ww.ScanRequests(scanned)
+		ww.positiveControl()
+		rc.Nontrivial = rc.S.Stats["c08_spend_request_scanned"] > 0
+		return
+	}
 	// weights:       mint send receive sendlocked melt resolvemelt reclaim mintswap rotate
 	weights := []int{2, 5, 6, 3, 3, 2, 3, 1, 1}
 	rc.StepLoop(3, 14, func(i int) {
